@@ -268,7 +268,7 @@ func init() {
 	}
 	_ = strings.ToUpper
 	addCheck(&Check{ID: "C07", Level: "exploration",
-		Rule: "complete product through the REAL main() with a YAML file (thorough: also through startProxy): no-received {absent,false,true} x arrival {UDP, accepted TCP connection, TCP connection the proxy dialled to a backend} x true source {plain, other address and high port, equal to the Via sent-by} x rport {absent, valueless, spoofed} x received {absent, spoofed} x Via layout x relaying path; after the request, the next hop answers and the response is followed to the true source; non-trivial = request relayed",
+		Rule:   "complete product through the REAL main() with a YAML file (thorough: also through startProxy): no-received {absent,false,true} x arrival {UDP, accepted TCP connection, TCP connection the proxy dialled to a backend} x true source {plain, other address and high port, equal to the Via sent-by} x rport {absent, valueless, spoofed} x received {absent, spoofed} x Via layout x relaying path; after the request, the next hop answers and the response is followed to the true source; non-trivial = request relayed",
 		Assume: []string{"position of a newly added Via parameter is not prescribed (parameters of the sender's entry compared as a multiset)"},
 		Run:    func(c *Ctx) { c07Spec.Run(c); cleanupYamlFiles() },
 		Replay: func(c *Ctx, raw json.RawMessage) string { defer cleanupYamlFiles(); return c07Spec.Replay(raw) },
